@@ -17,6 +17,9 @@ type Env struct {
 	pkg    string // package path for resolving names
 	locals bool   // may reference function locals by name
 	depth  int
+	atEntry bool  // evaluating the verified function's own requires (ownership is granted, not derived)
+	now    *State // the state outside the innermost old(...)
+	qvars  map[string]bool
 }
 
 func (g *Gen) newEnv(cur, old *State, pkg string) *Env {
@@ -25,6 +28,9 @@ func (g *Gen) newEnv(cur, old *State, pkg string) *Env {
 
 func (e *Env) with(cur *State) *Env {
 	c := *e
+	if c.now == nil {
+		c.now = e.cur
+	}
 	c.cur = cur
 	return &c
 }
@@ -84,6 +90,12 @@ func (g *Gen) eval(env *Env, x *SExpr) *Val {
 		return g.iteVal(c, a, b)
 	case "old":
 		return g.eval(env.with(env.old), x.Args[0])
+	case "deref":
+		p := g.eval(env, x.Args[0])
+		if p.K != KPtr || p.T == nil {
+			specErr(x, "dereference of non-pointer")
+		}
+		return g.loadPointee(env.cur, deref(p.T), p.S)
 	case "sel":
 		return g.evalSel(env, x)
 	case "idx":
@@ -114,10 +126,10 @@ func (g *Gen) eval(env *Env, x *SExpr) *Val {
 }
 
 func (g *Gen) evalIdent(env *Env, x *SExpr) *Val {
-	if v, ok := env.vars[x.Name]; ok {
+	if v, ok := env.vars[x.Name]; ok && (env.qvars[x.Name] || !env.locals || len(g.localsByName[x.Name]) == 0 || x.Name == "result") {
 		return v
 	}
-	if env.locals {
+	if env.locals && env.cur != g.entry {
 		if as := g.localsByName[x.Name]; len(as) > 0 {
 			a := as[0]
 			if g.escaping[a] {
@@ -151,6 +163,9 @@ func (g *Gen) evalIdent(env *Env, x *SExpr) *Val {
 				}
 			}
 		}
+	}
+	if v, ok := env.vars[x.Name]; ok {
+		return v
 	}
 	specErr(x, "unknown identifier %q", x.Name)
 	return nil
@@ -321,39 +336,130 @@ func (g *Gen) evalIdx(env *Env, x *SExpr) *Val {
 	return nil
 }
 
+// findIndexTrigger looks for a sub-expression S[k] (k the bound variable, S not mentioning k).
+func findIndexTrigger(e *SExpr, k string) *SExpr {
+	if e == nil {
+		return nil
+	}
+	if e.Op == "idx" && e.Args[1].Op == "ident" && e.Args[1].Name == k && !mentions(e.Args[0], k) {
+		return e
+	}
+	if e.Op == "forall" || e.Op == "exists" {
+		for _, v := range e.Vars {
+			if v.Name == k {
+				return nil
+			}
+		}
+	}
+	for _, a := range e.Args {
+		if r := findIndexTrigger(a, k); r != nil {
+			return r
+		}
+	}
+	return nil
+}
+
+func mentions(e *SExpr, k string) bool {
+	if e == nil {
+		return false
+	}
+	if e.Op == "ident" && e.Name == k {
+		return true
+	}
+	for _, a := range e.Args {
+		if mentions(a, k) {
+			return true
+		}
+	}
+	return false
+}
+
 func (g *Gen) evalQuant(env *Env, x *SExpr) *Val {
 	n := *env
 	n.vars = map[string]*Val{}
 	for k, v := range env.vars {
 		n.vars[k] = v
 	}
+	n.qvars = map[string]bool{}
+	for k := range env.qvars {
+		n.qvars[k] = true
+	}
+	for _, v := range x.Vars {
+		n.qvars[v.Name] = true
+	}
 	var decls []string
 	var guards []string
-	for _, v := range x.Vars {
-		t := g.P.resolveType(v.Type, env.pkg)
-		if t == nil {
-			specErr(x, "unknown type %s", v.Type)
+	var pats []string
+	// Single int variable indexing a slice: quantify over the ABSOLUTE index j = off + k, so that the
+	// trigger is the plain term M[arr][j] (matches any index term; no arithmetic inside the pattern).
+	absDone := false
+	if len(x.Vars) == 1 && (x.Vars[0].Type == "int") {
+		var tr *SExpr
+		if len(x.Trig) == 1 && len(x.Trig[0]) == 1 {
+			tr = findIndexTrigger(x.Trig[0][0], x.Vars[0].Name)
+			if tr != x.Trig[0][0] {
+				tr = nil
+			}
+		} else if len(x.Trig) == 0 {
+			tr = findIndexTrigger(x.Args[0], x.Vars[0].Name)
 		}
-		g.n++
-		bn := fmt.Sprintf("q!%s!%d", v.Name, g.n)
-		k := kindOf(t)
-		if !isScalarKind(k) {
-			specErr(x, "quantified variable of non-scalar type %s", v.Type)
+		if tr != nil {
+			var sv *Val
+			func() {
+				defer func() {
+					if r := recover(); r != nil {
+						sv = nil
+					}
+				}()
+				sv = g.eval(env, tr.Args[0])
+			}()
+			if sv != nil && (sv.K == KSlice || sv.K == KString) {
+				et := elemTypeOf(sv.T)
+				if et != nil && kindOf(et) != KStruct && kindOf(et) != KArray {
+					g.n++
+					bn := fmt.Sprintf("q!%s!%d", x.Vars[0].Name, g.n)
+					kv := bn
+					if sv.Off != "0" {
+						kv = "(- " + bn + " " + sv.Off + ")"
+					}
+					n.vars[x.Vars[0].Name] = &Val{K: KInt, T: types.Typ[types.Int], S: kv}
+					decls = append(decls, fmt.Sprintf("(%s Int)", bn))
+					sfx, kinds := leafComps(et)
+					m := g.memSym(env.cur, et, sfx[0], kinds[0])
+					pats = append(pats, ":pattern ((select (select "+m+" "+sv.Arr+") "+bn+"))")
+					absDone = true
+				}
+			}
 		}
-		n.vars[v.Name] = &Val{K: k, T: t, S: bn}
-		decls = append(decls, fmt.Sprintf("(%s %s)", bn, sortOfKind(k)))
-		if lo, hi, ok := intRange(t); ok && intBits(t) < 64 {
-			guards = append(guards, "(<= "+lo+" "+bn+")", "(<= "+bn+" "+hi+")")
+	}
+	if !absDone {
+		for _, v := range x.Vars {
+			t := g.P.resolveType(v.Type, env.pkg)
+			if t == nil {
+				specErr(x, "unknown type %s", v.Type)
+			}
+			g.n++
+			bn := fmt.Sprintf("q!%s!%d", v.Name, g.n)
+			k := kindOf(t)
+			if !isScalarKind(k) {
+				specErr(x, "quantified variable of non-scalar type %s", v.Type)
+			}
+			n.vars[v.Name] = &Val{K: k, T: t, S: bn}
+			decls = append(decls, fmt.Sprintf("(%s %s)", bn, sortOfKind(k)))
+			if lo, hi, ok := intRange(t); ok && intBits(t) < 64 {
+				guards = append(guards, "(<= "+lo+" "+bn+")", "(<= "+bn+" "+hi+")")
+			}
 		}
 	}
 	body := g.evalBool(&n, x.Args[0])
-	var pats []string
-	for _, tr := range x.Trig {
-		var ts []string
-		for _, t := range tr {
-			ts = append(ts, g.eval(&n, t).S)
+	if !absDone {
+		for _, tr := range x.Trig {
+			var ts []string
+			for _, t := range tr {
+				ts = append(ts, g.eval(&n, t).S)
+			}
+			pats = append(pats, ":pattern ("+strings.Join(ts, " ")+")")
 		}
-		pats = append(pats, ":pattern ("+strings.Join(ts, " ")+")")
 	}
 	if x.Op == "forall" {
 		body = implies(and(guards...), body)
@@ -424,6 +530,20 @@ func (g *Gen) evalCall(env *Env, x *SExpr) *Val {
 			return boolVal("(>= " + a.S + " " + g.brk(env.old) + ")")
 		}
 		specErr(x, "fresh of kind %d", a.K)
+	case "owned":
+		a := g.eval(env, x.Args[0])
+		if a.K != KSlice {
+			specErr(x, "owned() of non-slice")
+		}
+		return boolVal(g.ownedTerm(a.Arr, env.atEntry))
+	case "now":
+		if env.now == nil {
+			specErr(x, "now() outside old()")
+		}
+		n := *env
+		n.cur = env.now
+		n.now = nil
+		return g.eval(&n, x.Args[0])
 	case "sameslice":
 		a := g.eval(env, x.Args[0])
 		b := g.eval(env, x.Args[1])
